@@ -118,3 +118,9 @@ def match_assumption(expr):
 
 def neg_text(t):
     return t[4:] if t.startswith('not:') else 'not:' + t
+
+
+def known(text):
+    """an opaque test whose truth the model knows: one of the assumptions (false) or the negation of one (true)"""
+    texts = {a[0] for a in ASSUMPTIONS}
+    return text in texts or neg_text(text) in texts
